@@ -87,7 +87,7 @@ def _run_group(prop, gname, tier, seed):
             pending = E.prepare()
             for ob in E.obligations:
                 out['obligations'].append(_ob_record(ob, g))
-            out['pending'] = [(k, text, pure, E.timeout_ms) for (k, text, pure) in pending]
+            out['pending'] = [(k, text, pure, E.timeout_ms, relaxed) for (k, text, pure, relaxed) in pending]
             out['explore_s'] = t1 - t0
             out['paths'] = E.paths
             out['left_fragment'] = E.left_fragment
@@ -114,10 +114,16 @@ def _run_group(prop, gname, tier, seed):
 
 
 def _solve_task(task):
-    gname, k, text, pure, timeout_ms = task
+    gname, k, text, pure, timeout_ms, relaxed = task
     from pyvc import smt
+    dt0 = 0.0
+    if relaxed is not None:
+        # real relaxation of an integer obligation: unsat over the reals implies unsat over the integers
+        r, model, backend, dt0 = smt.solve(relaxed, True, min(timeout_ms, 10000), use_cvc5=False)
+        if r == 'unsat':
+            return gname, k, r, model, backend + '-realrelax', dt0
     r, model, backend, dt = smt.solve(text, pure, timeout_ms)
-    return gname, k, r, model, backend, dt
+    return gname, k, r, model, backend, dt + dt0
 
 
 def _finish_record(rec, r, model, backend, dt, g):
@@ -239,8 +245,8 @@ def main(argv=None):
         bygroup = {r['group']: r for r in results}
         gmap = {g.name: g for g in groups}
         for r in results:
-            for (k, text, pure, tmo) in r.pop('pending', []) or []:
-                tasks.append((r['group'], k, text, pure, tmo))
+            for (k, text, pure, tmo, relaxed) in r.pop('pending', []) or []:
+                tasks.append((r['group'], k, text, pure, tmo, relaxed))
         tasks.sort(key=lambda t: -len(t[2]))
         smt_total = 0.0
         for (gname, k, res, model, backend, dt) in ex.map(_solve_task, tasks, chunksize=1):
